@@ -367,3 +367,10 @@ func init() {
 		mutant{Name: "every-child-of-a-field-expression-ignored", Prop: "C15", File: "interp/cfg.go", Old: "\t\t\tif n.anc.kind == fieldExpr && n != n.anc.lastChild() {\n", New: "\t\t\tif n.anc.kind == fieldExpr {\n", Rule: "R15.5", Key: "getVarDependencies/skip:fieldExpr"},
 	)
 }
+
+func init() {
+	addMutants(
+		mutant{Name: "benign-arity-messages-reworded", Prop: "C12", File: "interp/cfg.go", Old: "\t\t\t\terr = n.cfgErrorf(\"too many arguments to return\")\n", New: "\t\t\t\terr = n.cfgErrorf(\"too many return values\")\n", Benign: true},
+		mutant{Name: "benign-switch-tag-generator-renamed", Prop: "C02", File: "interp/run.go", Old: "\t\tl := len(n.anc.anc.child)\n\t\tvalue := genValue(n.anc.anc.child[l-2])\n", New: "\t\tsw := n.anc.anc\n\t\tvalue := genValue(sw.child[len(sw.child)-2])\n", Benign: true},
+	)
+}
